@@ -16,6 +16,7 @@ package lnwire
 //@
 //@ func (c *ReplyChannelRange) Decode
 //@   props C10
+//@   bounds-safe
 //@   requires len(c.Timestamps) == 0
 //@   loop * havoc
 //@   ensures result == nil && len(c.Timestamps) != 0 ==> len(c.Timestamps) == len(c.ShortChanIDs)
@@ -82,6 +83,7 @@ package lnwire
 //@
 //@ func WriteMessage
 //@   props C10
+//@   bounds-safe
 //@   ensures result1 == nil ==> ret(Len, 1) - ret(Len, 0) - retn(Write, 0) <= 65533 && result0 == ret(Len, 2) - ret(Len, 0)
 //@   site call Encode: assert arg(1) == buf && retn(Write, 1) == nil
 //@
@@ -93,12 +95,16 @@ package lnwire
 //@
 //@ func ReadMessage
 //@   props C10
+//@   bounds-safe
 //@   ensures result1 == nil ==> retn(ReadFull, 1) == nil && retn(makeEmptyMessage, 1) == nil && ret(Decode) == nil &&
 //@           result0 == retn(makeEmptyMessage, 0)
 //@   site call Decode: assert arg(1) == r && arg(2) == pver
 //@
 //@ func ReadAddress
 //@   props C10
+//@   bounds-safe
+//@   // the descriptor byte is part of the announced length: callers pass the bytes that remain (at least one)
+//@   requires addrsLen >= 1
 //@   site call ReadFull nth 0: assert arg(0) == addrBuf && len(arg(1)) == 1
 //@   site call ReadFull nth 1: assert len(arg(1)) == 4
 //@   site call ReadFull nth 2: assert len(arg(1)) == 2
